@@ -5,7 +5,7 @@
 //
 // case file (written by checks/C16.py, every random choice derives from VERIF_SEED there):
 //   C <id> w=<bits per digit> mw=<meta bits> min=<digits of the input payload> chain=<s1,s2,...>
-//          hold=<0|1> polite=<0|1> pp=<0|1> n=<cycles>
+//          hold=<0|1> polite=<0|1> pp=<0|1> eopg=<g> n=<cycles>
 //   P <valid> <d0.d1...> <eop> <meta> <ready_out> <stall bits|->        one line per cycle (the plan)
 //
 //   stages:  rd  regDownstream          rb  regDownstreamBlocking     rr  regReady (skid buffer)
@@ -14,6 +14,8 @@
 //            ff<d> strm::fifo(minDepth d, DontCare)   fz<d> strm::fifo(minDepth d, latency 0 = fall-through)
 //   hold=1  : the producer keeps valid/payload/eop/meta of a beat that was offered but not accepted
 //             (the plan's beat of that cycle is skipped); hold=0: the plan is applied verbatim.
+//   eopg=g>0: the eop of the i-th (1-based) offered valid beat is the plan's eop AND (i mod g == 0), so that
+//             packet lengths are multiples of g (packets aligned to the extendWidth groups); g=0: verbatim.
 //   polite=1: a stall condition is forced low in the cycle after one in which a beat was waiting
 //             (valid & !ready) at that stall stage's own output; polite=0: verbatim.
 //
@@ -41,7 +43,7 @@ struct PlanLine { bool v; std::vector<uint64_t> d; bool e; uint64_t m; bool r; s
 struct Case {
 	std::string header;          // everything after "C "
 	std::string id;
-	size_t w = 4, mw = 3, min = 1, n = 0;
+	size_t w = 4, mw = 3, min = 1, n = 0, eopg = 0;
 	bool hold = true, polite = true, pp = true;
 	std::vector<std::string> chain;
 	std::vector<PlanLine> plan;
@@ -141,7 +143,13 @@ void runCase(const Case &c, std::ostream &out)
 	sim::ReferenceSimulator s(false);
 	size_t nStall = stallPins.size();
 	s.addSimulationProcess([&]()->SimProcess {
-		PlanLine curBeat = c.plan.empty() ? PlanLine{} : c.plan[0];
+		size_t offered = 0;
+		auto take = [&](const PlanLine &p) {
+			PlanLine b = p;
+			if (b.v) { offered++; if (c.eopg) b.e = b.e && (offered % c.eopg == 0); }
+			return b;
+		};
+		PlanLine curBeat = c.plan.empty() ? PlanLine{} : take(c.plan[0]);
 		std::vector<bool> stallNow(nStall, false);
 		auto apply = [&](const PlanLine &beat, const PlanLine &ctl, const std::vector<bool> &st) {
 			simu(valid(in)) = beat.v ? '1' : '0';
@@ -174,7 +182,7 @@ void runCase(const Case &c, std::ostream &out)
 			const PlanLine &nx = c.plan[i + 1];
 			// producer: keep an offered, not yet accepted beat (hold=1)
 			bool keepBeat = c.hold && curBeat.v && rin != "1";
-			if (!keepBeat) curBeat = nx;
+			if (!keepBeat) curBeat = take(nx);
 			// stall conditions: must not rise while a beat waits at the stall stage's own output (polite=1)
 			for (size_t k = 0; k < nStall; k++) {
 				bool waiting = false;
@@ -210,6 +218,7 @@ bool parseHeader(const std::string &line, Case &c)
 		else if (k == "hold") c.hold = v == "1";
 		else if (k == "polite") c.polite = v == "1";
 		else if (k == "pp") c.pp = v == "1";
+		else if (k == "eopg") c.eopg = strtoull(v.c_str(), nullptr, 10);
 		else if (k == "chain") { c.chain.clear(); if (v != "-") c.chain = split(v, ','); }
 	}
 	return true;
